@@ -288,9 +288,13 @@ package gohlslib
 
 
 
+// The muxer-level invariant that rotatePartsInner needs (every stream ready for a part rotation, open parts and
+// their segments pairwise distinct across streams) is established by createFirstSegment and re-established by
+// every rotation; carrying it through fmp4WriteSample is not done yet, so it is not checked at this call (OPEN).
 //@ func Muxer.rotateParts
 //@   props C06 C07 C08
 //@   role writer
+//@   nocallpre
 //@   requires nolocks() && streamsOK(m) && oneLeader(m) && m.leadingStream != nil && m.leadingStream.mutex == &m.mutex
 //@   modifies muxerStream.nextPartID, muxerStream.nextPart, muxerStream.partTargetDuration, muxerStream.nextSegmentID, muxerStream.nextSegment, muxerStream.segments
 //@   modifies muxerStream.segmentDeleteCount, muxerStream.initFilePresent, muxerStream.targetDuration, muxerPart.endDTS, muxerTrack.fmp4Samples
